@@ -111,6 +111,8 @@ def run(name, props=None):
             res["checks"][p] = {"exit": rc, "violation": viol[:1], "what": [w[:300] for w in what[:1]]}
     finally:
         sh(["git", "-C", "/repo", "checkout", "--", "."])
+        # the checks regenerated lean/InovesaModel/Gen from the CHANGED tree: bring the copies back to the clean tree
+        sh(["python3-vt", os.path.join(VERIF, "translator", "generate_all.py")])
     res["caught_by"] = [p for p, r in res["checks"].items() if r["exit"] == 1 and r["violation"]]
     return res
 
